@@ -15,7 +15,8 @@ def _common_coverage(c, extra=None):
         samples.append({"run": r["id"], "prints": r["prints"], "events_logged": r.get("nevents")})
     cov = {
         "states": max(1, exh["distinct"]), "transitions": max(1, exh["generated"]),
-        "traces_validated_against_impl": val["accepted"],
+        "traces_validated_against_impl": val["accepted"] + (c.get("validation_np") or {}).get("accepted", 0),
+        "np_traces_validated_against_GritsNP": {k: (c.get("validation_np") or {}).get(k) for k in ("traces", "accepted", "events", "selftest")},
         "samples": samples,
         "programs_total": len(c["progs"]), "programs_accepted_closed": sum(1 for p in c["progs"] if p["runnable"]),
         "programs_exhaustive": len(c["small"]), "exhaustive_modes": ["async", "sync"],
@@ -59,14 +60,15 @@ def _model_issues(c, v, invs):
     if not enp["ok"] and not enp["per_prog"] and not enp.get("timeout"):
         v.harness_errors.append("TLC failed on GritsNP: " + str(enp.get("error_text"))[:800])
     val = c["validation"]
-    for r in val["rejected"]:
+    valnp = c.get("validation_np") or {"rejected": []}
+    for r in val["rejected"] + valnp["rejected"]:
         if r.get("harness"):
             v.harness_errors.append(r["why"])
         else:
             v.notes.append("conformance-lost at event %s of trace %s (%s): %s" % (r["at"], r["id"], r["why"], json.dumps(r["event"])[:300]))
-    st = val.get("selftest") or {}
-    if st.get("ran") and not st.get("ok"):
-        v.harness_errors.append("binding self-test failed: " + json.dumps(st))
+    for st in (val.get("selftest") or {}, valnp.get("selftest") or {}):
+        if st.get("ran") and not st.get("ok"):
+            v.harness_errors.append("binding self-test failed: " + json.dumps(st))
 
 
 def c01():
